@@ -1,1 +1,188 @@
 // verification harness (compiled into ntpd/src/daemon/server.rs under cfg(all(test, pendulum_project_ntpd_rs_verif)))
+// Slice "Stats" of spec/MC_Server.tla (C21): the daemon's counter mapping ServerStats::register as a pure function.
+// Every (nts, reason, response) triple enumerated by TLC is registered on a fresh ServerStats and the counters
+// that moved are compared with the specification's table.
+#![allow(clippy::all, dead_code)]
+
+use super::*;
+use serde_json::{Value, json};
+
+#[path = "/verif/harness/common/util.rs"]
+mod util;
+
+fn moved(s: &ServerStats) -> Vec<String> {
+    let all: [(&str, &Counter); 11] = [
+        ("received", &s.received_packets),
+        ("accepted", &s.accepted_packets),
+        ("denied", &s.denied_packets),
+        ("ignored", &s.ignored_packets),
+        ("rate_limited", &s.rate_limited_packets),
+        ("send_errors", &s.response_send_errors),
+        ("nts_received", &s.nts_received_packets),
+        ("nts_accepted", &s.nts_accepted_packets),
+        ("nts_denied", &s.nts_denied_packets),
+        ("nts_rate_limited", &s.nts_rate_limited_packets),
+        ("nts_nak", &s.nts_nak_packets),
+    ];
+    let mut v = vec![];
+    for (n, c) in all {
+        match c.get() {
+            0 => {}
+            1 => v.push(n.to_string()),
+            k => v.push(format!("{n}x{k}")),
+        }
+    }
+    v.sort();
+    v
+}
+
+#[test]
+fn verif_server_stats() {
+    let job = util::job();
+    let walks = util::read_ndjson(job["input"].as_str().unwrap());
+    let mut out = util::NdjsonOut::create(job["output"].as_str().unwrap());
+    for w in walks {
+        let mut fail = Value::Null;
+        let mut run = 0;
+        for (n, st) in w["walk"].as_array().unwrap().iter().enumerate() {
+            let a = &st["act"];
+            let reason = match a["reason"].as_str().unwrap() {
+                "RateLimit" => ServerReason::RateLimit,
+                "ParseError" => ServerReason::ParseError,
+                "InvalidCrypto" => ServerReason::InvalidCrypto,
+                "InternalError" => ServerReason::InternalError,
+                _ => ServerReason::Policy,
+            };
+            let resp = match a["resp"].as_str().unwrap() {
+                "NTSNak" => ServerResponse::NTSNak,
+                "Deny" => ServerResponse::Deny,
+                "Ignore" => ServerResponse::Ignore,
+                _ => ServerResponse::ProvideTime,
+            };
+            let mut s = ServerStats::default();
+            let r = util::catch(|| s.register(a["ver"].as_u64().unwrap() as u8, a["nts"].as_bool().unwrap(), reason, resp));
+            run = n + 1;
+            let got = moved(&s);
+            let mut want: Vec<String> = st["out"]["counters"].as_array().unwrap().iter().map(|x| x.as_str().unwrap().to_string()).collect();
+            want.sort();
+            if r.is_err() || got != want {
+                fail = json!({"step": n, "fields": if r.is_err() { vec!["panic"] } else { vec!["counters"] }, "observed": {"counters": got}, "panic": r.err()});
+                break;
+            }
+        }
+        out.put(&json!({"id": w["id"], "steps_run": run, "fail": fail}));
+    }
+    out.finish();
+}
+
+// ------------------------------------------------------------------------------------------------
+// C16 end to end: the real ServerTask on a loopback UDP socket. The datagrams (concretised by the ntp-proto
+// harness, cookies issued by the key set persisted next to them) are sent one by one, each followed by a plain
+// 48-byte sentinel poll; the server handles datagrams in order, so once the sentinel's answer has arrived the
+// answer to the datagram before it (if any) has arrived too. Reported: length of the answer (0 = none).
+// ------------------------------------------------------------------------------------------------
+#[derive(Clone)]
+struct Clk;
+impl NtpClock for Clk {
+    type Error = std::io::Error;
+    fn now(&self) -> Result<ntp_proto::NtpTimestamp, Self::Error> {
+        Ok(ntp_proto::NtpTimestamp::from_seconds_nanos_since_ntp_era(3_800_000_000, 0))
+    }
+    fn set_frequency(&self, _: f64) -> Result<ntp_proto::NtpTimestamp, Self::Error> {
+        panic!("not for a server")
+    }
+    fn get_frequency(&self) -> Result<f64, Self::Error> {
+        Ok(0.0)
+    }
+    fn step_clock(&self, _: ntp_proto::NtpDuration) -> Result<ntp_proto::NtpTimestamp, Self::Error> {
+        panic!("not for a server")
+    }
+    fn disable_ntp_algorithm(&self) -> Result<(), Self::Error> {
+        panic!("not for a server")
+    }
+    fn error_estimate_update(&self, _: ntp_proto::NtpDuration, _: ntp_proto::NtpDuration) -> Result<(), Self::Error> {
+        panic!("not for a server")
+    }
+    fn status_update(&self, _: ntp_proto::NtpLeapIndicator) -> Result<(), Self::Error> {
+        panic!("not for a server")
+    }
+}
+
+fn unhex(s: &str) -> Vec<u8> {
+    (0..s.len() / 2).map(|i| u8::from_str_radix(&s[2 * i..2 * i + 2], 16).unwrap()).collect()
+}
+
+#[test]
+fn verif_server_udp() {
+    use std::net::SocketAddr;
+    use timestamped_socket::socket::GeneralTimestampMode;
+    let job = util::job();
+    let rows = util::read_ndjson(job["input"].as_str().unwrap());
+    let mut out = util::NdjsonOut::create(job["output"].as_str().unwrap());
+    let mut file = std::fs::File::open(job["keyset"].as_str().unwrap()).expect("key set file");
+    let (provider, _) = ntp_proto::KeySetProvider::load(&mut file, 2).expect("load key set");
+    let rt = tokio::runtime::Builder::new_current_thread().enable_all().build().unwrap();
+    rt.block_on(async {
+        let mut servers: std::collections::HashMap<String, (SocketAddr, JoinHandle<()>)> = Default::default();
+        let mut sentinel_no: u64 = 0;
+        for r in rows {
+            let denied = r["denied"].as_bool().unwrap();
+            let rn = r["requireNts"].as_str().unwrap().to_string();
+            let key = format!("{denied}/{rn}");
+            if !servers.contains_key(&key) {
+                let port = crate::test::alloc_port();
+                let listen = SocketAddr::new("127.0.0.1".parse().unwrap(), port);
+                let mut config = ServerConfig::from(listen);
+                config.accept_ntp_versions = vec![ntp_proto::NtpVersion::V3, ntp_proto::NtpVersion::V4, ntp_proto::NtpVersion::V5];
+                config.denylist.action = ntp_proto::FilterAction::Deny;
+                if denied {
+                    config.denylist.filter = vec!["127.0.0.0/8".parse().unwrap()];
+                }
+                config.require_nts = match rn.as_str() {
+                    "none" => None,
+                    "deny" => Some(ntp_proto::FilterAction::Deny),
+                    _ => Some(ntp_proto::FilterAction::Ignore),
+                };
+                let (_tx, keyset) = tokio::sync::watch::channel(provider.get());
+                std::mem::forget(_tx);
+                let server = Server::new_internal(config.clone().into(), Clk, Arc::default(), keyset.borrow().clone());
+                let join = ServerTask::spawn(server, config, ServerStats::default(), keyset, Duration::from_secs(0));
+                tokio::time::sleep(Duration::from_millis(50)).await;
+                servers.insert(key.clone(), (listen, join));
+            }
+            let (listen, _) = &servers[&key];
+            let sock = open_ip(SocketAddr::new("127.0.0.1".parse().unwrap(), crate::test::alloc_port()), GeneralTimestampMode::SoftwareRecv, false).unwrap();
+            let mut sock = sock.connect(*listen).unwrap();
+            let msg = unhex(r["hex"].as_str().unwrap());
+            sock.send(&msg).await.unwrap();
+            sentinel_no += 1;
+            let mut sentinel = vec![0u8; 48];
+            sentinel[0] = (4 << 3) | 3;
+            sentinel[40..48].copy_from_slice(&(0xA5A5_0000_0000_0000u64 | sentinel_no).to_be_bytes());
+            sock.send(&sentinel).await.unwrap();
+            let mut answer_len: i64 = 0;
+            let mut answers = 0;
+            let mut buf = [0u8; 4096];
+            loop {
+                let got = tokio::time::timeout(Duration::from_secs(5), sock.recv(&mut buf)).await;
+                let n = match got {
+                    Ok(Ok(r)) => r.bytes_read,
+                    _ => {
+                        answer_len = -1; // the sentinel was not answered: broken set-up, reported as such
+                        break;
+                    }
+                };
+                if n == 48 && buf[24..32] == sentinel[40..48] {
+                    break;
+                }
+                answers += 1;
+                answer_len = n as i64;
+            }
+            out.put(&json!({"id": r["id"], "len": answer_len, "answers": answers, "reqlen": msg.len()}));
+        }
+        for (_, (_, j)) in servers {
+            j.abort();
+        }
+    });
+    out.finish();
+}
